@@ -17,8 +17,9 @@ BASIC_NO_H = 'ybnqiuxtdsog'
 
 
 @st.composite
-def complete_type(draw, depth=3, allow_h=False, allow_v=True, not_v=False):
-    """One complete type from the grammar, size-biased towards shallow ones."""
+def complete_type(draw, depth=3, allow_h=False, allow_v=True, not_v=False, h_keys=False):
+    """One complete type from the grammar, size-biased towards shallow ones.  h_keys: dictionaries may be keyed by
+    UNIX_FD (a basic type like the others); used for the TEXT of SIGNATURE values, not for values that are built."""
     leafs = list(BASIC_NO_H) + (['h'] if allow_h else []) + (['v'] if allow_v and not not_v else [])
     if depth <= 0:
         return draw(st.sampled_from(leafs))
@@ -26,12 +27,12 @@ def complete_type(draw, depth=3, allow_h=False, allow_v=True, not_v=False):
     if kind == 'leaf':
         return draw(st.sampled_from(leafs))
     if kind == 'array':
-        return 'a' + draw(complete_type(depth - 1, allow_h, allow_v))
+        return 'a' + draw(complete_type(depth - 1, allow_h, allow_v, h_keys=h_keys))
     if kind == 'struct':
         n = draw(st.integers(1, 4))
-        return '(' + ''.join(draw(complete_type(depth - 1, allow_h, allow_v)) for _ in range(n)) + ')'
-    k = draw(st.sampled_from(list(BASIC_NO_H)))
-    return 'a{' + k + draw(complete_type(depth - 1, allow_h, allow_v)) + '}'
+        return '(' + ''.join(draw(complete_type(depth - 1, allow_h, allow_v, h_keys=h_keys)) for _ in range(n)) + ')'
+    k = draw(st.sampled_from(list(BASIC_NO_H) + (['h', 'h'] if h_keys else [])))
+    return 'a{' + k + draw(complete_type(depth - 1, allow_h, allow_v, h_keys=h_keys)) + '}'
 
 
 @st.composite
@@ -47,9 +48,9 @@ def limit_type(draw):
 
 
 @st.composite
-def signature(draw, max_types=4, depth=3, allow_h=False, min_types=0):
+def signature(draw, max_types=4, depth=3, allow_h=False, min_types=0, h_keys=False):
     n = draw(st.integers(min_types, max_types))
-    types = [draw(complete_type(depth, allow_h)) for _ in range(n)]
+    types = [draw(complete_type(depth, allow_h, h_keys=h_keys)) for _ in range(n)]
     while len(''.join(types)) > 255:
         types.pop()
     return ''.join(types)
@@ -122,7 +123,8 @@ def tree_for(draw, t, max_len=4, in_variant=False, vdepth=2):
     if c == 'o':
         return draw(object_path)
     if c == 'g':
-        return draw(signature(max_types=3, depth=2))
+        # the value of a SIGNATURE is text: any valid signature, descriptors and descriptor-keyed dictionaries included
+        return draw(signature(max_types=3, depth=2, allow_h=True, h_keys=True))
     if c == 'a':
         et = t[1:]
         if et[0] == '{':
